@@ -112,6 +112,20 @@ fn vary_env(r: &mut Rng, base: &Scenario) -> (Scenario, Vec<String>) {
         s.dirty_heap = true;
         kinds.push("dirty_heap".to_owned());
     }
+    // another clock: frozen, creeping, leaping ten seconds or an hour per read, an hour once in
+    // four reads; another starting moment
+    s.clock = crate::scenario::ClockSpec {
+        start_ns: *r.pick(&[0u64, 1, 999_999_999, 86_399_000_000_000, 1u64 << 62]),
+        plan: match r.below(6) {
+            0 => vec![],
+            1 => vec![1_000],
+            2 => vec![10_000_000_000],
+            3 => vec![3_600_000_000_000],
+            4 => vec![0, 0, 0, 3_600_000_000_000],
+            _ => vec![1_000_000, 7_000_000_000, 13],
+        },
+    };
+    kinds.push("clock".to_owned());
     (s, kinds)
 }
 
@@ -125,7 +139,7 @@ fn make_service_case(seed: u64, run: u64) -> Option<Case> {
     let ah = run % 256;
     let int = if run < 256 { "0x10" } else { "0x21" };
     let src = format!(
-        "buf: db [12]\nstart:\nmov byte buf, 6\nmov dx, offset buf\nmov bp, 2\nmov cx, 3\nmov al, 0x41\nmov ah, {}\nint {}\nprint reg\nprint mem : 11\n",
+        "buf: db [12]\nstart:\nmov byte buf, 6\nmov dx, offset buf\nmov bp, 2\nmov cx, 3\nmov bx, 16\nmov si, 3\nmov di, 5\nmov al, 0x41\nmov ah, {}\nint {}\nprint reg\nprint mem : 11\n",
         ah, int
     );
     let mut scn = Scenario::new(src.as_bytes());
@@ -152,6 +166,9 @@ pub fn make_case(seed: u64, run: u64, stats: &mut Stats) -> Option<Case> {
     // (the seeded part keeps the random streams it had before the enumerated prefix existed)
     let rs = run_seed(seed, "C19", run - SERVICE_ENUM);
     let mut r = Rng::new(rs);
+    if run % 160 == 0 {
+        return make_long_silent_case(&mut r, seed, run);
+    }
     match run % 5 {
         0 | 1 => make_env_case(&mut r, seed, run, stats),
         2 => make_multi_case(&mut r, seed, run, false),
@@ -300,6 +317,42 @@ pub fn judge_history(_case: &Case, ex: &Exec) -> Vec<Violation> {
         v.push(Violation::new("C19:thread_history_dependent{exit}", "the run ends differently on a thread that has run other sessions before".to_string()));
     }
     v
+}
+
+/// a program that computes for thousands of instructions without saying or asking anything,
+/// then shows its state: whatever the emulator does "now and then" (every so many instructions,
+/// after so much time) happens here, under clocks that creep, leap or stand still
+fn make_long_silent_case(r: &mut Rng, seed: u64, run: u64) -> Option<Case> {
+    let n1 = r.range(1400, 2000);
+    let n2 = r.range(300, 800);
+    let mut src = String::from("buf: db [8]\nstart:\n");
+    src.push_str(&format!("mov cx, {}\nl_1: add ax, 3\nxchg ax, bx\nloop l_1\nprint reg\n", n1));
+    if r.chance(50) {
+        src.push_str("mov dl, 0x2a\nmov ah, 2\nint 0x21\n");
+    }
+    if r.chance(50) {
+        src.push_str("mov ah, 1\nint 0x21\n");
+    }
+    src.push_str(&format!("mov cx, {}\nl_2: inc si\nmov word [6], si\nloop l_2\nprint mem : 7\nprint reg\n", n2));
+    let mut scn = Scenario::new(src.as_bytes());
+    scn.stdin.bytes = Bytes(b"one line\n".to_vec());
+    scn.fuel = 40_000;
+    if r.chance(25) {
+        scn.interpreted = false;
+    }
+    let mut case = Case::new("C19", "env", seed, run, scn);
+    let mut kinds_all = Vec::new();
+    let n_env = r.urange(2, 4);
+    for _ in 0..n_env {
+        let (s, kinds) = vary_env(r, &case.scn);
+        kinds_all.extend(kinds);
+        case.alts.push(AltRun { role: "env".to_owned(), scn: s, gen: None });
+    }
+    kinds_all.sort();
+    kinds_all.dedup();
+    case.faults = kinds_all;
+    case.config = "long_silent_program".to_owned();
+    Some(case)
 }
 
 fn make_env_case(r: &mut Rng, seed: u64, run: u64, stats: &mut Stats) -> Option<Case> {
@@ -558,6 +611,9 @@ pub fn judge_env(case: &Case, ex: &Exec) -> Vec<Violation> {
         }
         if a.scn.dirty_heap != case.scn.dirty_heap {
             varied.push("heap");
+        }
+        if a.scn.clock != case.scn.clock {
+            varied.push("clock");
         }
         let out = ah.records_text();
         if out != base_out {
